@@ -61,8 +61,25 @@ endef
 ENGINES_asan := c15 c20 c09 c06 c14 c17
 $(foreach e,$(ENGINES_asan),$(eval $(call ENGINE_RULE,$(e),asan,)))
 
+# the thread simulator runtime: never instrumented, no OpenMP
+$(B)/simrt.o: sim/simrt.cpp sim/simrt.hpp sim/simrt_race.inc sim/simrt_gomp.inc
+	@mkdir -p $(B)
+	$(CXX) -std=c++17 -O2 -g -fno-omit-frame-pointer -fno-tree-loop-distribute-patterns -Wall -Wextra -c sim/simrt.cpp -o $@
+LINK_thr := -no-pie
+LINK_omp := -no-pie
+# engines of the instrumented flavours: compiled with the hooks, linked WITHOUT libtsan / libgomp (simrt.o provides both ABIs)
+define ENGINE_RULE_SIM
+$(B)/$(2)/$(1).o: engines/$(1).cpp $(SIMHDR) $(B)/config/TasmanianConfig.hpp
+	@mkdir -p $(B)/$(2)
+	$(CXX) -std=c++17 $(GUARD) $$(FLAGS_$(2)) $(INC) -I. -MMD -MP -c engines/$(1).cpp -o $$@
+$(B)/$(2)/$(1): $(B)/$(2)/$(1).o $(B)/$(2)/libtsg.a $(B)/simrt.o $(3)
+	$(CXX) -g -no-pie $(B)/$(2)/$(1).o $(3) $(B)/$(2)/libtsg.a $(B)/simrt.o -lpthread -ldl -o $$@
+endef
+ENGINES_thr := c18
+$(foreach e,$(ENGINES_thr),$(eval $(call ENGINE_RULE_SIM,$(e),thr,)))
+
 .PHONY: all clean $(addprefix eng-,$(ENGINES_asan))
-all: $(foreach e,$(ENGINES_asan),$(B)/asan/$(e))
+all: $(foreach e,$(ENGINES_asan),$(B)/asan/$(e)) $(foreach e,$(ENGINES_thr),$(B)/thr/$(e))
 clean:
 	rm -rf $(B)
 
